@@ -237,6 +237,13 @@ def edit(cell):
     elif kind == 'assign':
         shot.winds = [W((0, 60)), W((90, 20))]
         edited = [(0, 60), (90, 20)]
+    elif kind.startswith('redisplay'):
+        # conversions only change the unit a quantity displays in: the order of the segments is the order of the LENGTHS
+        units = {'redisplay_first_inch': (0, 'Inch'), 'redisplay_last_mile': (-1, 'Mile'), 'redisplay_first_km': (0, 'Kilometer')}[kind]
+        winds[units[0]].until_distance << pb.Unit[units[1]]
+        winds[units[0]].velocity << pb.Unit.KMH
+        winds[units[0]].direction_from << pb.Unit.Mil
+        edited = list(segs)
     else:   # speed of the first wind set to zero in place
         winds[0].velocity = U.MPH(0)
         edited = [('Z', segs[0][1])] + list(segs[1:])
@@ -274,6 +281,6 @@ def plan(tier):
     od = [[list(a), list(b)] for a in SEGS for b in SEGS if not (a[0] == 'Z' and b[0] == 'Z')]
     if tier == 'quick':
         od = [c for c in od if c[0][1] != c[1][1]]
-    ed = [[m, k] for m in multisets(2) + (m3[::9] if tier == 'quick' else m3) for k in ('swap_until', 'append', 'assign', 'zero_speed')
+    ed = [[m, k] for m in multisets(2) + (m3[::9] if tier == 'quick' else m3) for k in ('swap_until', 'append', 'assign', 'zero_speed', 'redisplay_first_inch', 'redisplay_last_mile', 'redisplay_first_km')
           if any(x[0] != 'Z' for x in m)]
     return [('lists', ls), ('sense', se), ('sock', sk), ('ode', od), ('edit', ed)]
